@@ -1859,10 +1859,15 @@ func ruleWIN2(c *Ctx) []Ob {
 		o.add(UNDECIDED, "window-node/configuration", pos, "the fields receiving Query.GetSkip() and Query.GetLimit() were not found")
 		return softenUndecided(o.list)
 	}
-	const docs = 7
+	docs := int64(7)
+	skips, limits := []int64{0, 1, 3}, []int64{-1, 0, 1, 2, 5}
+	if c.Tier == "thorough" {
+		docs = 14
+		skips, limits = []int64{0, 1, 2, 3, 5, 8}, []int64{-1, 0, 1, 2, 3, 5, 8, 13}
+	}
 	bad, undec, n := "", "", 0
-	for _, skip := range []int64{0, 1, 3} {
-		for _, limit := range []int64{-1, 0, 1, 2, 5} {
+	for _, skip := range skips {
+		for _, limit := range limits {
 			te := c.newTagEval()
 			te.heap = map[int64]map[int]aval{}
 			forwarded := false
@@ -1919,14 +1924,14 @@ func ruleWIN2(c *Ctx) []Ob {
 			break
 		}
 	}
-	key := node.Obj().Name() + ".Callback/window [skip, skip+limit) over 7 documents"
+	key := node.Obj().Name() + ".Callback/window [skip, skip+limit)"
 	switch {
 	case bad != "":
 		o.add(VIOLATED, key, pos, "%s", bad)
 	case undec != "":
 		o.add(UNDECIDED, key, pos, "%s", undec)
 	default:
-		o.add(OK, key, pos, "skip in {0,1,3} x limit in {-1,0,1,2,5}: %d transitions, each document forwarded exactly when it lies in the window; stop only when the window is exhausted (configuration fields %s, %s)", n, skipF, limitF)
+		o.add(OK, key, pos, "skip in %v x limit in %v over %d documents: %d transitions, each document forwarded exactly when it lies in the window; stop only when the window is exhausted (configuration fields %s, %s)", skips, limits, docs, n, skipF, limitF)
 	}
 	return softenUndecided(o.list)
 }
